@@ -1,7 +1,8 @@
 from ast import Attribute, Subscript, Load, NodeVisitor
 
 from .compat import PY2
-from .scope import FuncScope, Flow, SourceScope, ClassScope
+from .scope import (FuncScope, Flow, SourceScope, ClassScope,
+                    IMPORT_END_DELIMETERS)
 from .name import AssignedName, ImportedName
 from .util import (np, get_expr_end, get_indexes_for_target, visitor, get_any_marked_name)
 
@@ -164,17 +165,35 @@ class extract_visitor(NodeVisitor):
                 iname = name
                 self.top._imports.append(a.name)
 
+            if a.asname:
+                # the bound name follows the imported one: ``import a as a``
+                start = self.top.find_id_loc(a.name, start)
             declared_at = self.top.find_id_loc(name, start)
+            # the next alias is searched after this one: ``import a.b, a.c``
+            start = declared_at
             self.flow.add_name(ImportedName(name, loc, declared_at, iname, None,
                                             qualified=qualified))
 
     def visit_ImportFrom(self, node):
         # type: (ast.ImportFrom) -> None
         loc = get_expr_end(node)
+        # names are searched after the ``import`` keyword, not in the module
+        # part: ``from time import time``
         start = np(node)
+        found = [p for p in (
+            self.top.find_id_loc('import', start,
+                                 end_delimeters=IMPORT_END_DELIMETERS + '(*'),
+            # ``from .import name``: the keyword follows the dots directly
+            self.top.find_id_loc('.import', start, delimeters=False))
+            if p != start]
+        if found:
+            start = min(found)
         for a in node.names:
             name = a.asname or a.name
+            if a.asname:
+                start = self.top.find_id_loc(a.name, start)
             declared_at = self.top.find_id_loc(name, start)
+            start = declared_at
             module = '.' * node.level + (node.module or '')
             if name == '*':
                 self.top._star_imports.append((loc, declared_at, module, self.flow))
